@@ -6,7 +6,7 @@ def run(tier):
     params = {"G": 2, "maxWorkers": 2, "preempt": 1} if q else {"G": 3, "maxWorkers": 2, "preempt": 2}
     f = [os.path.join(VERIF, "harness/rpc/zz_verif_c39.go")]
     c.run_pkg(REPO, "./pkg/rpc", os.path.join(REPO, "pkg/rpc"), "rpc", f, "^VerifC39PoolStep$", params=params, max_models=8 if q else 30, wall="600s")
-    c.run_pkg(REPO, "./pkg/rpc", os.path.join(REPO, "pkg/rpc"), "rpc", f, "^VerifC39(Pool|Memory)$", params=params, max_models=0, wall="120s" if q else "3600s", soft_trunc="record")
+    c.run_pkg(REPO, "./pkg/rpc", os.path.join(REPO, "pkg/rpc"), "rpc", f, "^VerifC39(Pool|Memory)$", params=params, max_models=0, wall="120s" if q else "3600s", soft_trunc="record", extra_flags=["-solver", "cvc5-int"])
     c.assumptions += ["REDUCED SCOPE: the admission data structures only (workerPool Get/Put/GC/Close, acquireRequestSema/releaseRequestBuf over semaphore.Weighted); the receive/send loops, sockets and the Go scheduler are outside",
                       "cooperative scheduler: interleavings at synchronisation operations, <= preempt involuntary switches per path; concurrent harnesses are engine-only",
                       "time.Now returns arbitrary non-decreasing instants"]
